@@ -904,7 +904,7 @@ def run(ctx):
     tag = f'cases{os.getpid()}'          # private to this process: concurrent runs of this check do not collide
     try:
         lines = common.coq_eval('C06', 'Prelude Model.Roadm Run.C06', terms,
-                                per_file=max(12, len(terms) // ctx.scale(48, 160) + 1), tag=tag)
+                                per_file=max(12, len(terms) // ctx.scale(48, 400) + 1), tag=tag)
     finally:
         wd = os.path.join(common.WORK, 'C06')
         for f in os.listdir(wd) if os.path.isdir(wd) else []:
